@@ -136,7 +136,7 @@ def run(run):
     rng = run.rng
     quick = run.tier == "quick"
     texts = [gen_doc(rng) for _ in range(1500 if quick else 20000)]
-    texts += [c02.render(c02.gen_doc(rng, rng.randint(1, 8)), rng) for _ in range(300 if quick else 3000)]
+    texts += [c02.render(c02.gen_doc(rng, rng.randint(1, 8)), rng, extras=False) for _ in range(300 if quick else 3000)]
     chunks = [texts[i:i + 100] for i in range(0, len(texts), 100)]
     res = lib.run_impl("roundtrip", [{"texts": c} for c in chunks], shards=lib.NCPU)
     outs = [o for r in res for o in (r.get("outs") or [])]
